@@ -7,6 +7,7 @@ import (
 	"fmt"
 	"io"
 	"net/http"
+	"sort"
 	"strings"
 	"time"
 
@@ -57,6 +58,7 @@ type World struct {
 	RunErr  error
 	RunDone bool
 	Panics  []string
+	Defs    []string // the shared scenario definition as handed to every shot
 	curShot map[int]int
 }
 
@@ -137,6 +139,7 @@ func Start(ctx context.Context, cancel func(), w *World, p core.Provider, guns [
 					return
 				}
 				sc := a.(*httpscenario.Scenario)
+				w.Defs = append(w.Defs, defString(sc))
 				w.curShot[i]++
 				rec := ShotRec{Inst: i, Scenario: sc.Name, Start: time.Since(w.T0)}
 				guns[i].Shoot(sc)
@@ -146,4 +149,26 @@ func Start(ctx context.Context, cancel func(), w *World, p core.Provider, guns [
 			}
 		}()
 	}
+}
+
+func defString(sc *httpscenario.Scenario) string {
+	var sb strings.Builder
+	fmt.Fprintf(&sb, "%s minwait=%v:", sc.Name, sc.MinWaitingTime)
+	for _, r := range sc.Requests {
+		body := "<nil>"
+		if r.Body != nil {
+			body = *r.Body
+		}
+		ks := make([]string, 0, len(r.Headers))
+		for k := range r.Headers {
+			ks = append(ks, k)
+		}
+		sort.Strings(ks)
+		fmt.Fprintf(&sb, " %s %s %s body=%s sleep=%v", r.Name, r.Method, r.URI, body, r.Sleep)
+		for _, k := range ks {
+			fmt.Fprintf(&sb, " %s=%q", k, r.Headers[k])
+		}
+		sb.WriteString(";")
+	}
+	return sb.String()
 }
